@@ -56,6 +56,12 @@ func (e *Engine) resolveIntercept(fn *ssa.Function, name string) interceptFn {
 		return ic
 	}
 	pp := pkgPathOf(fn)
+	if deniedPkgs[pp] || strings.HasPrefix(pp, "crypto/") || strings.HasPrefix(pp, "hash/") || strings.HasPrefix(pp, "internal/") {
+		return func(ex *Exec, fr *frame, fn *ssa.Function, args []Value, pos tokenPos) Value {
+			ex.unsupported("call into un-modelled library function " + fn.String())
+			return nil
+		}
+	}
 	switch pp {
 	case "k8s.io/klog/v2", "k8s.io/klog":
 		return icZero
@@ -336,6 +342,10 @@ func init() {
 			}
 			return mkConcat(r, mkStr("\n"))
 		},
+		"(*sigs.k8s.io/controller-runtime/pkg/client.mergeFromPatch).Data": func(ex *Exec, fr *frame, fn *ssa.Function, args []Value, pos tokenPos) Value {
+			// a reflection-driven JSON diff: opaque body (harnesses inspect the patched object instead)
+			return TupleV{SliceV{str: ex.fresh("mergepatch", SStr)}, IfaceV{}}
+		},
 		"fmt.Println": icZero, "fmt.Printf": icZero, "fmt.Print": icZero, "fmt.Fprintf": icZero, "fmt.Fprintln": icZero,
 
 		// ---------------- strings / strconv ----------------
@@ -545,6 +555,30 @@ func init() {
 			return nil
 		},
 
+		"reflect.TypeOf": func(ex *Exec, fr *frame, fn *ssa.Function, args []Value, pos tokenPos) Value {
+			iv := args[0].(IfaceV)
+			if iv.t == nil {
+				return IfaceV{}
+			}
+			return IfaceV{t: types.Typ[types.UnsafePointer], v: NativeV{reflectType{iv.t}}}
+		},
+		"reflect.ValueOf": func(ex *Exec, fr *frame, fn *ssa.Function, args []Value, pos tokenPos) Value {
+			return NativeV{reflectValue{args[0].(IfaceV)}}
+		},
+		"(reflect.Value).IsNil": func(ex *Exec, fr *frame, fn *ssa.Function, args []Value, pos tokenPos) Value {
+			rv := args[0].(NativeV).v.(reflectValue)
+			if rv.v.t == nil {
+				ex.raise(fr, pos, "reflect: call of reflect.Value.IsNil on zero Value")
+			}
+			n, known := isNilValue(rv.v.v)
+			if !known {
+				ex.raise(fr, pos, "reflect: call of reflect.Value.IsNil on non-nillable value")
+			}
+			return mkBool(n)
+		},
+		"(reflect.Value).IsValid": func(ex *Exec, fr *frame, fn *ssa.Function, args []Value, pos tokenPos) Value {
+			return mkBool(args[0].(NativeV).v.(reflectValue).v.t != nil)
+		},
 		// ---------------- sort ----------------
 		"sort.Slice":       icSortSlice,
 		"sort.SliceStable": icSortSlice,
@@ -583,6 +617,34 @@ func init() {
 		},
 	}
 	pseudoBuiltins["noop"] = func(ex *Exec, fr *frame, f FuncV, args []Value, pos tokenPos) Value { return nil }
+}
+
+var deniedPkgs = map[string]bool{"reflect": true, "unsafe": true, "runtime": true, "syscall": true, "os": true, "net": true, "net/http": true,
+	"encoding/json": true, "os/exec": true, "io/ioutil": true, "regexp": true, "math/rand": true, "sync/atomic": true, "encoding/hex": true,
+	"github.com/davecgh/go-spew/spew": true, "github.com/evanphx/json-patch": true, "github.com/yuin/gopher-lua": true, "sigs.k8s.io/yaml": true,
+	"k8s.io/apimachinery/pkg/util/json": true, "encoding/base64": true}
+
+// reflectType / reflectValue are the engine-side stand-ins for reflect.Type / reflect.Value.
+type reflectType struct{ t types.Type }
+type reflectValue struct{ v IfaceV }
+
+func (ex *Exec) invokeNative(fr *frame, nv NativeV, method string, args []Value, pos tokenPos) Value {
+	switch r := nv.v.(type) {
+	case reflectType:
+		switch method {
+		case "Name":
+			if n, ok := r.t.(*types.Named); ok {
+				return mkStr(n.Obj().Name())
+			}
+			return mkStr("")
+		case "String":
+			return mkStr(types.TypeString(r.t, func(p *types.Package) string { return p.Name() }))
+		case "Kind":
+			ex.unsupported("reflect.Type.Kind")
+		}
+	}
+	ex.unsupported(fmt.Sprintf("method %s on native %T", method, nv.v))
+	return nil
 }
 
 func icTrue(ex *Exec, fr *frame, fn *ssa.Function, args []Value, pos tokenPos) Value { return tTrue }
@@ -719,7 +781,7 @@ func (ex *Exec) formatValue(a IfaceV, verb byte) *Term {
 	// Stringer / error
 	if verb == 'v' || verb == 's' {
 		for _, mname := range []string{"Error", "String"} {
-			if m := ex.prog.LookupMethod(a.t, nil, mname); m != nil && m.Signature.Params().Len() == 0 && m.Signature.Results().Len() == 1 && isString(m.Signature.Results().At(0).Type()) {
+			if m := ex.lookupMethod(a.t, nil, mname); m != nil && m.Signature.Params().Len() == 0 && m.Signature.Results().Len() == 1 && isString(m.Signature.Results().At(0).Type()) {
 				if p, ok := a.v.(PtrV); ok && p.c == nil {
 					return mkStr("<nil>")
 				}
@@ -991,9 +1053,9 @@ func icSortSort(ex *Exec, fr *frame, fn *ssa.Function, args []Value, pos tokenPo
 	if iv.t == nil {
 		ex.raise(fr, pos, "sort.Sort(nil)")
 	}
-	lenM := ex.prog.LookupMethod(iv.t, nil, "Len")
-	lessM := ex.prog.LookupMethod(iv.t, nil, "Less")
-	swapM := ex.prog.LookupMethod(iv.t, nil, "Swap")
+	lenM := ex.lookupMethod(iv.t, nil, "Len")
+	lessM := ex.lookupMethod(iv.t, nil, "Less")
+	swapM := ex.lookupMethod(iv.t, nil, "Swap")
 	n := ex.concretize(asTerm(ex.callFn(fr, FuncV{fn: lenM}, []Value{iv.v}, pos)), "sort len")
 	ex.insertionSort(n, func(i, j int) bool {
 		r := ex.callFn(fr, FuncV{fn: lessM}, []Value{iv.v, mkInt(int64(i)), mkInt(int64(j))}, pos)
